@@ -29,6 +29,7 @@ type Opts struct {
 	SmallVals   bool // values from a tiny set (ties, cancellation)
 	NonNeg      bool // only non-negative values
 	AnyIDs      bool // permuted / sparse / huge ids
+	NoHugeIDs   bool // with AnyIDs: skip ids near MaxUint64
 	Unused      bool // tables may hold unreferenced entries
 	Labels      bool
 	NumLabels   bool
@@ -458,6 +459,9 @@ func FromUniverse(t *rapid.T, u *Universe, o Opts) *Prof {
 	pol := IDDense
 	if o.AnyIDs {
 		pol = rapid.IntRange(0, 3).Draw(t, "idpolicy")
+		if o.NoHugeIDs && pol == IDHuge {
+			pol = IDSparse
+		}
 	}
 	mkIDs := func(n int, what string) []uint64 {
 		ids := make([]uint64, n)
